@@ -3,6 +3,7 @@ pub mod engines;
 pub mod flavour;
 pub mod gen;
 pub mod hashseam;
+pub mod keys;
 pub mod locks;
 pub mod model;
 pub mod payload;
